@@ -59,9 +59,15 @@ def main(argv):
         from . import replay, kreplay
         case = json.load(open(a.replay))
         cs = case["cases"] if "cases" in case else [case]
-        res = [(kreplay.run([c])[0] if str(c.get("api", "")).startswith("k_") else replay.run([c])[0]) for c in cs]
+        if all(not str(c.get("api", "")).startswith("k_") for c in cs):
+            res = replay.run(cs)      # one process, in order (multi-step sequences keep their history)
+        else:
+            res = [(kreplay.run([c])[0] if str(c.get("api", "")).startswith("k_") else replay.run([c])[0]) for c in cs]
         print(json.dumps({"case": case, "result": res}, indent=1))
         bad = mod.judge_replay(case, res) if hasattr(mod, "judge_replay") else None
+        if case.get("key") == "hidden-state":
+            alone = replay.run([cs[-1]])[0]
+            bad = alone.get("times") != res[-1].get("times")
         if bad:
             print("VIOLATION property=%s replay=%s" % (pid, a.replay))
             return 1
